@@ -658,6 +658,32 @@ def check_patch_points():
         raise env.Inconclusive('patch point(s) missing: %s' % ', '.join(missing))
 
 
+def selftest_patch_points():
+    """Effect test of the substitutions (DESIGN 3.1): a refactor that moves a name must make every check
+    INCONCLUSIVE, never produce a verdict."""
+    from . import harness
+    w = World(harness.hs_server([('at', 2.5), ('raw', refws.enc_frame(1, b'x'))]), horizon=4.0, stop_at=4.0)
+    run = harness.drive(w, connect_kwargs=dict(ping_rate=0, poll=1.0))
+    problems = []
+    if not any(e[0] == 'connect' for e in w.log) or not any(e[0] == 'recv' for e in w.log):
+        problems.append('lomond.session.socket (simulated socket saw no connect/recv)')
+    if not any(e[0] == 'wait' for e in w.log):
+        problems.append('WebsocketSession._selector_cls (simulated selector never waited)')
+    polls = [round(t, 6) for n, t in zip(run.names, run.times) if n == 'poll']
+    if polls[:3] != [0.0, 1.0, 2.0]:
+        problems.append('virtual clock / selector timeout (Poll events at %r)' % (polls[:4],))
+    stamps = [round(e.received_time - CLOCK_BASE, 6) for e in run.events if e.name in ('poll', 'text')]
+    if stamps[:4] != [0.0, 1.0, 2.0, 2.5]:
+        problems.append('lomond.events.time (event.received_time does not follow the virtual clock: %r)' % (stamps[:4],))
+    sess = run.ws.session if run.ws is not None else None
+    with Installed(w):
+        st = sess.session_time if sess is not None else None
+    if st is None or abs(st - w.now) > 1e-6:
+        problems.append('lomond.session.time (session_time %r does not follow the virtual clock %r)' % (st, w.now))
+    if problems:
+        raise env.Inconclusive('patch point(s) not effective: ' + '; '.join(problems))
+
+
 # ---------------------------------------------------------------------------
 # scripted, reactive server
 # ---------------------------------------------------------------------------
